@@ -138,6 +138,8 @@ def run(ctx):
             (dict(hosts=["10.0.0.1", "10.0.0.2"], rounds=7, behaviours=["ok", "wrong-id"], triggers=["zc-port", "zc-same", "zc-changed", "drop"]), 2),
             # the controller itself gives a connection up (garbled 2xx reply to an application write on an idle session): retries must follow
             (dict(hosts=["10.0.0.1"], rounds=6, behaviours=["ok", "auth-error"], triggers=["put-garbled:not-json", "put-garbled:not-utf8", "put-garbled:truncated-json", "drop", "zc-same", "close"]), 2),
+            # application requests in flight (one on the wire, one queued behind it) when the connection goes
+            (dict(hosts=["10.0.0.1"], rounds=7, behaviours=["ok", "auth-error"], triggers=["app-req", "drop", "ensure", "zc-same"], prelude=["ok|10.0.0.1|ok"]), 3),
             # other environments (read boundaries, block sizes, HTTP spelling of the accessory's replies): nothing in the property depends on them
             (dict(hosts=["10.0.0.1", "10.0.0.2"], rounds=8, env=dict(delivery="bytes", frames=[7], http="chunked-lower"), **small), 1),
             (dict(hosts=["10.0.0.1"], rounds=6, subscriptions=True, env=dict(delivery="3/4", frames=[40], http="lower"), behaviours=["ok", "ok-bad-subscribe-reply", "auth-error", "m4-auth-error"], triggers=["zc-same", "ensure", "drop", "close"]), 1),
